@@ -75,7 +75,7 @@ static ssize_t rd(int fd, char *buf, size_t len)
 }
 
 /* byte i of the logical stream before the call */
-static unsigned char stream0(unsigned int i) { return i < p0 ? xinit[BN - p0 + i] : src[i - p0]; }
+static unsigned char stream0(unsigned int i) { return i < p0 ? xinit[BN - p0 + i] : i - p0 < SMAX ? src[i - p0] : 0; }
 
 /* post-state: valid, and (unread buffered ++ unread source) == old stream from `delivered` on */
 static void check_rest(unsigned int delivered)
